@@ -50,6 +50,9 @@ def run(ctx: Ctx):
     check_ancilla_api(ctx)
     check_mark_operands(ctx)
     ctx.section(check_inplace, ctx)
+    from . import c06 as _c06
+
+    ctx.section(_c06.check_dest_rebound, ctx, ctx.repo.cls(IC))
 
 
 def check_inplace(ctx: Ctx):
